@@ -1,13 +1,25 @@
 #!/bin/bash
 # Re-run every seeded change against the quick check of the property it breaks (in a private
 # mount namespace, see nsrun.sh). Prints one line per change; exit 1 if any is no longer reported.
+# usage: seeded_regress.sh [glob] [-j N]   (N changes at a time, default 4: each run has its own
+# scratch copies of /repo, the harness and the build output, so they do not interfere)
 cd /verif
-bad=0
-for d in seeded/*/; do
-  id=$(basename "$d"); prop=${id:0:3}
-  [ -n "$1" ] && [[ "$id" != $1 ]] && continue
+glob="*"; jobs=4
+while [ -n "$1" ]; do
+  case "$1" in
+    -j) jobs=$2; shift; shift;;
+    *) glob=$1; shift;;
+  esac
+done
+one() {
+  d=$1; id=$(basename "$d"); prop=${id:0:3}
   out=$(./nsrun.sh /verif/$d/patch.diff "./check $prop quick" 2>&1)
   line=$(echo "$out" | grep -E "^  \[" | head -1 | cut -c1-150)
-  if echo "$out" | grep -q "^VIOLATION property=$prop"; then echo "$id caught: $line"; else echo "$id NOT CAUGHT ($(echo "$out" | grep -E "^$prop quick|MACHINERY|error" | head -2 | tr '\n' ' '))"; bad=1; fi
-done
+  if echo "$out" | grep -q "^VIOLATION property=$prop"; then echo "$id caught: $line"; else echo "$id NOT CAUGHT ($(echo "$out" | grep -E "^$prop quick|MACHINERY|error" | head -2 | tr '\n' ' '))"; fi
+}
+export -f one
+log=$(mktemp /tmp/seeded_regress.XXXXXX)
+ls -d seeded/*/ | while read d; do id=$(basename "$d"); [[ "$id" == $glob ]] && echo "$d"; done | xargs -P "$jobs" -I{} bash -c 'one {}' | tee "$log"
+bad=0; grep -q "NOT CAUGHT" "$log" && bad=1
+rm -f "$log"
 exit $bad
